@@ -31,6 +31,7 @@ inductive Class where
   | rdonlyTrunc           -- OpenFile(file, O_RDONLY|O_TRUNC): native truncates, memFS does not
   | allowedRenameOverExisting
   | unspecifiedSeekDir
+  | unspecifiedOffsetLimit -- offsets beyond the native filesystem's maximum (memFS: up to what a slice can hold)
   deriving DecidableEq, Repr
 
 def divClass (s : State) : Op → Option Class
@@ -41,10 +42,20 @@ def divClass (s : State) : Op → Option Class
       else if f.create || f.trunc then some .dirCreateTrunc else none
     | some (.file _) => if !f.wr && f.trunc then some .rdonlyTrunc else none
     | none => none
-  | .seek h _ _ =>
+  | .seek h off whence =>
     match s.handles[h]? with
     | none => none
-    | some hd => if hd.isDir then some .unspecifiedSeekDir else none
+    | some hd =>
+      if hd.isDir then some .unspecifiedSeekDir
+      else match seekPos (fileData s hd).length hd.pos off whence with
+        | some np => if np > osMaxOffset then some .unspecifiedOffsetLimit else none
+        | none => none
+  | .write h data =>
+    match s.handles[h]? with
+    | none => none
+    | some hd =>
+      if (if hd.app then (fileData s hd).length else hd.pos) + data.length > osMaxOffset
+      then some .unspecifiedOffsetLimit else none
   | .rename _ b => if (get s.tree b).isSome then some .allowedRenameOverExisting else none
   | _ => none
 
@@ -159,7 +170,18 @@ theorem agree_step (s : State) (op : Op) (h : divClass s op = none) : Mem.step s
   | mkdir p => simp only [Mem.step, Os.step, mkdir_agree]
   | stat p => simp only [Mem.step, Os.step, stat_agree]
   | fstat h' => rfl
-  | write k data => rfl
+  | write k data =>
+    simp only [divClass] at h
+    simp only [Mem.step, Os.step]
+    cases hk : s.handles[k]? with
+    | none => rfl
+    | some hd =>
+      simp only [hk] at h ⊢
+      have hlim : ¬ ((if hd.app then (fileData s hd).length else hd.pos) + data.length > osMaxOffset) := by
+        intro hx; simp [hx] at h
+      have hlim2 : ¬ ((if hd.app then (fileData s hd).length else hd.pos) + data.length > memMaxAlloc) := by
+        unfold osMaxOffset at hlim; unfold memMaxAlloc; omega
+      simp [hlim, hlim2]
   | read k n => rfl
   | readdir k count => rfl
   | removeAll p => simp only [Mem.step, Os.step, removeAll_agree]
@@ -180,7 +202,13 @@ theorem agree_step (s : State) (op : Op) (h : divClass s op = none) : Mem.step s
     | some hd =>
       simp only [hk] at h ⊢
       have hdir : hd.isDir = false := by cases hx : hd.isDir <;> simp_all
-      simp [hdir]
+      simp only [hdir, Bool.false_eq_true, if_false] at h ⊢
+      cases hsp : seekPos (fileData s hd).length hd.pos off wh with
+      | none => rfl
+      | some np =>
+        simp only [hsp] at h ⊢
+        have : ¬ np > osMaxOffset := by intro hx; simp [hx] at h
+        simp [this]
   | rename a b =>
     simp only [divClass] at h
     have hb : get s.tree b = none := by
@@ -198,7 +226,8 @@ def cleanRun : State → List Op → Bool
 def exceptionFree : State → List Op → Bool
   | _, [] => true
   | s, op :: ops =>
-    (divClass s op != some .allowedRenameOverExisting && divClass s op != some .unspecifiedSeekDir) &&
+    (divClass s op != some .allowedRenameOverExisting && divClass s op != some .unspecifiedSeekDir &&
+      divClass s op != some .unspecifiedOffsetLimit) &&
     exceptionFree (Mem.step s op).1 ops
 
 /-- `holds_partial`: for every history that stays outside the classes, both filesystems give the
@@ -309,6 +338,22 @@ old length, write: the hole is zeros on both filesystems. -/
 example : (runWith Mem.step {} [.open nA rwCreate, .write 0 [88, 88, 88, 88, 88], .open nA (fl 2 false false false false true),
     .seek 1 4 0, .write 1 [97], .seek 0 0 0, .read 0 40]).2.getLast? = some (.data [0, 0, 0, 0, 97]) := by decide
 
+/-! ### Huge offsets and names of Stat -/
+
+/-- A Write that would need a hole no slice can hold fails ("file too large") instead of panicking;
+formerly `make` panicked. -/
+example : (runWith Mem.step {} [.open nA rwCreate, .seek 0 4611686018427387904 0, .write 0 [120], .fstat 0]).2 =
+    [.opened 0 false, .pos 4611686018427387904, .err, .info false 0 none] := by decide
+
+/-- `Stat` names the entry by the last component of the cleaned path (`/` for the root): the driver
+cleans `/a/b/..` to `[a]`, so the name is `a`, never `..`. -/
+theorem stat_name (s : State) (p : Path) (isDir : Bool) (size : Nat) (name : Option Name)
+    (h : (Mem.step s (.stat p)).2 = .info isDir size name) : name = some (p.getLast?.getD [47]) := by
+  simp only [Mem.step] at h
+  cases hs : okOf (Mem.stat s.tree p) with
+  | none => simp [hs, statRes] at h
+  | some e => cases e <;> simp [hs, statRes] at h <;> exact h.2.2.symm
+
 /-! ### Root and own-subtree clause -/
 
 theorem walkFrom_dir (t : Tree) : ∀ (rest done : Path), Mem.walkFrom t done rest = .ok () →
@@ -416,6 +461,6 @@ example : cleanRun {} [.mkdir nA, .open (nA ++ nB) rwCreate, .write 0 [1, 2, 3],
 
 example : (runWith Mem.step {} [.mkdir nA, .open (nA ++ nB) rwCreate, .write 0 [1, 2, 3], .seek 0 1 0,
     .read 0 5, .rename nA nB, .write 0 [7], .stat (nB ++ nB)]).2 =
-    [.ok, .opened 0 false, .wrote 3, .pos 1, .data [2, 3], .ok, .wrote 1, .info false 4] := by decide
+    [.ok, .opened 0 false, .wrote 3, .pos 1, .data [2, 3], .ok, .wrote 1, .info false 4 (some [98])] := by decide
 
 end NetVerif.Proofs.C44
